@@ -17,6 +17,7 @@ package netflow5
 //@ spec validV5(b []byte) bool = len(b) >= 24 && be16(b, 0) == 5 && 1 <= be16(b, 2) && be16(b, 2) <= 30 && len(b) >= 24 + 48*be16(b, 2)
 
 //@ func (*PacketHeader).unmarshal
+//@   names h r _ err
 //@   requires r != nil && inv(r)
 //@   ensures inv(r) && r.base == old(r.base) && r.count >= old(r.count)
 //@   ensures old(len(r.data)) >= 24 ==> err == nil && r.count == old(r.count) + 24 && hdrAt(h, r.base, old(r.count))
@@ -24,9 +25,11 @@ package netflow5
 //@   modifies h, r.data, r.count
 
 //@ func (*PacketHeader).validate
+//@   names h _
 //@   ensures err == nil <==> (h.Version == 5 && 1 <= h.Count && h.Count <= 30)
 
 //@ func (*FlowRecord).unmarshal
+//@   names fr r _ err
 //@   requires r != nil && inv(r)
 //@   ensures inv(r) && r.base == old(r.base) && r.count >= old(r.count)
 //@   ensures old(len(r.data)) >= 48 ==> err == nil && r.count == old(r.count) + 48 && flowAt(fr, r.base, old(r.count))
@@ -34,11 +37,13 @@ package netflow5
 //@   modifies fr, r.data, r.count
 
 //@ func NewDecoder
+//@   names raddr b _
 //@   opt borrows b
 //@   ensures result != nil && result.raddr == raddr && result.reader != nil && inv(result.reader)
 //@   ensures result.reader.base == b && result.reader.count == 0
 
 //@ func (*Decoder).decodeFlows
+//@   names d flowCount msg _ remainingLen expectedLen flowIndex err fr
 //@   requires d.reader != nil && inv(d.reader) && msg != nil && 0 <= flowCount && flowCount <= 65535
 //@   ensures d.reader != nil && inv(d.reader) && d.reader.base == old(d.reader.base) && d.raddr == old(d.raddr)
 //@   ensures 48*flowCount <= old(len(d.reader.data)) ==> err == nil && d.reader.count == old(d.reader.count) + 48*flowCount
@@ -58,6 +63,7 @@ package netflow5
 //@     decreases flowCount - flowIndex
 
 //@ func (*Decoder).Decode
+//@   names d _ _ msg err err decodeErrors flowCount err
 //@   opt borrows d
 //@   requires d.reader != nil && inv(d.reader) && d.reader.count == 0
 //@   ensures validV5(old(d.reader.base)) ==> result != nil && err == nil && hdrAt(result.Header, old(d.reader.base), 0)
@@ -70,6 +76,7 @@ package netflow5
 //@   opt unreachable cover.ret.3   // the default branch of the type switch is dead: nonfatalError is an interface type every error implements
 
 //@ func combineErrors
+//@   names errorSlice err errMsg _ subError
 //@   requires forall i :: 0 <= i && i < len(errorSlice) ==> errorSlice[i] != nil
 //@   ensures len(errorSlice) == 0 ==> err == nil
 //@   ensures len(errorSlice) > 0 ==> err != nil
@@ -82,6 +89,7 @@ package netflow5
 //@ spec dotted4(a mathint) string = ipText4(a / 16777216, (a / 65536) % 256, (a / 256) % 256, a % 256)
 
 //@ func (*Message).JSONMarshal
+//@   names m b _ _ err
 //@   opt borrows b
 //@   opt json
 //@   requires b != nil && b.js.Ph == 0 && b.js.Dp == 0 && jscanon(b.js) && jssafe(m.AgentID)
@@ -89,6 +97,7 @@ package netflow5
 //@   modifies b
 
 //@ func (*Message).encodeAgent
+//@   names m b
 //@   opt json
 //@   requires b != nil && jsKey5(b.js, 1) && jssafe(m.AgentID)
 //@   ensures b.js == jsset(old(b.js), 3)
@@ -96,6 +105,7 @@ package netflow5
 //@   modifies b
 
 //@ func (*Message).encodeHeader
+//@   names m b
 //@   opt json
 //@   requires b != nil && jsKey5(b.js, 1)
 //@   ensures b.js == jsset(old(b.js), 3)
@@ -111,6 +121,7 @@ package netflow5
 //@   modifies b
 
 //@ func (*Message).encodeFlow
+//@   names m r b ip
 //@   opt json
 //@   requires b != nil && jsKey5(b.js, 3) && b.js.Ph == 2
 //@   ensures b.js == jsset(old(b.js), 5)
@@ -137,6 +148,7 @@ package netflow5
 //@   modifies b
 
 //@ func (*Message).encodeFlows
+//@   names m b _ fLength err i
 //@   opt json
 //@   requires b != nil && jsKey5(b.js, 1) && b.js.Ph == 3
 //@   ensures err == nil ==> b.js == jsset(old(b.js), 5)
